@@ -58,6 +58,13 @@ func (s *recSession) Set(advs ...*bgp.Advertisement) error {
 		s.mgr.failSets--
 		return fmt.Errorf("verif: injected Set failure")
 	}
+	if s.mgr.failAt > 0 {
+		// environment fault: the n-th session update of this delivery is refused (the earlier ones went through)
+		s.mgr.setCalls++
+		if s.mgr.setCalls == s.mgr.failAt {
+			return fmt.Errorf("verif: injected Set failure")
+		}
+	}
 	s.setN++
 	s.last = advs
 	return nil
@@ -72,6 +79,8 @@ type recMgr struct {
 	sessions []*recSession
 	misuse   []string
 	failSets int // the next failSets Set calls fail
+	failAt   int // the failAt-th Set call of the current delivery fails (0: none)
+	setCalls int
 }
 
 func (m *recMgr) NewSession(l log.Logger, args bgp.SessionParameters) (bgp.Session, error) {
@@ -597,12 +606,15 @@ func (s *spkSys) Enabled() []verifrt.Event {
 		for _, k := range s.svcQ.Keys() {
 			if k != "reload" {
 				evs = append(evs, verifrt.Event{Kind: "dsvc", S: k, B: 1, Fault: true}) // the first session update of this delivery is refused
+				evs = append(evs, verifrt.Event{Kind: "dsvc", S: k, B: 2, Fault: true}) // the second one is (the first peer already has the new routes)
 			}
 		}
 	}
 	// user events at quiescent states, and one more right after a user event before anything of it was delivered
 	// (two API changes observed together)
-	if !s.quiescent() && !(spkBurstMode && !s.u.NoBurst && s.burst == 1) {
+	// (with the session-update fault in the menu also while nothing but the retry of a refused delivery is pending: a retry
+	// in back-off waits arbitrarily long, the next change may well arrive first)
+	if !s.quiescent() && !(spkBurstMode && !s.u.NoBurst && s.burst == 1) && !(spkFaultMenu && !s.u.L2 && s.cfgQ.Empty() && s.nodeQ.Empty() && s.settledModuloRetries()) {
 		return evs
 	}
 	for i, n := range s.u.Svcs {
@@ -749,8 +761,12 @@ func (s *spkSys) Apply(ev verifrt.Event) {
 		})
 	case "dsvc":
 		s.svcQ.Take(ev.S)
-		s.mgr.failSets = ev.B
-		defer func() { s.mgr.failSets = 0 }()
+		if ev.B == 2 {
+			s.mgr.failAt, s.mgr.setCalls = 2, 0
+		} else {
+			s.mgr.failSets = ev.B
+		}
+		defer func() { s.mgr.failSets, s.mgr.failAt = 0, 0 }()
 		req := ctrl.Request{NamespacedName: types.NamespacedName{Namespace: "metallbreload", Name: "reload"}}
 		if ev.S != "reload" {
 			parts := strings.SplitN(ev.S, "/", 2)
